@@ -3,7 +3,7 @@ _T3 = "run-time contracts vs dense oracles (bounded)"
 CLAIMED['C01'] = ('other', 'sidecar contracts: run-time clause evaluation vs dense spec (bounded); E1/E2 added as built',
                   'Contracts of the value-level TT API evaluated on the real code for an enumerated+seeded family of shapes/kinds against the independent einsum denotation; bounded, not a proof.',
                   'NumPy as oracle; tolerance 1e-9 relative; bounded family of shapes')
-for _p in ['C%02d' % i for i in range(2, 12)]:
+for _p in ['C%02d' % i for i in range(2, 16)]:
     CLAIMED[_p] = CLAIMED['C01']
-for _p in ['C%02d' % i for i in range(12, 21)]:
+for _p in ['C%02d' % i for i in range(16, 21)]:
     NA[_p] = 'check not built yet in this session (work in progress; see DESIGN.md section 8)'
